@@ -55,7 +55,12 @@ func genN3Op(r *vlib.R) string {
 		}
 		labels = strings.Join(ls, ".")
 	}
-	return fmt.Sprintf("n3 %s %s %s %s", vlib.Pick(r, []string{"nx", "nx", "nodata"}), vlib.Pick(r, []string{"apex", "apex", "host"}), labels, vlib.B(r.Chance(2, 3)))
+	op := fmt.Sprintf("n3 %s %s %s %s", vlib.Pick(r, []string{"nx", "nx", "nodata"}), vlib.Pick(r, []string{"apex", "apex", "host"}), labels, vlib.B(r.Chance(2, 3)))
+	if r.Chance(1, 3) {
+		// the iteration count the ring advertises, around the ceiling of 150
+		op += fmt.Sprintf(" %d", vlib.Pick(r, []int{0, 1, 10, 149, 150, 151, 500, 2500, 65535}))
+	}
+	return op
 }
 
 // genN3Case: a ledger whose NSEC3 allowance sits around what a few proofs cost.
@@ -620,6 +625,9 @@ func gen(r *vlib.R, n int, tier string, emit func(string)) {
 			emitc("n3 nx apex a.b " + memo)
 			emitc("n3 nx apex c.b " + memo)
 			emitc("n3 nodata host - " + memo)
+			emitc("n3 nx apex a.b " + memo + " 150")
+			emitc("n3 nx apex a.b " + memo + " 151")
+			emitc("n3 nodata host - " + memo + " 2500")
 			emitc("ledger snap")
 		}
 	}
